@@ -77,6 +77,8 @@ struct Publ {
     extrinsics_root: [u8; 32],
     tree_root: [u8; 32],
     leaf_hash: [u8; 32],
+    /// the statement carries the dummy sentinel (zero block hash, zero outputs): tree-path objects get is_not_dummy = false
+    dummy: bool,
 }
 
 fn gen_public(rng: &mut StdRng) -> Publ {
@@ -95,6 +97,7 @@ fn gen_public(rng: &mut StdRng) -> Publ {
         extrinsics_root: rand_digest(rng),
         tree_root: rand_digest(rng),
         leaf_hash: rand_digest(rng),
+        dummy: false,
     }
 }
 
@@ -300,9 +303,9 @@ fn apply(name: &str, o: Obj, s: &Sens, p: &Publ) -> Result<Obj, String> {
         ("account_from_felts", Obj::AF(f)) => Obj::UA(UnspendableAccount::from_field_elements(f.as_slice()).map_err(e)?),
         ("account_to_nullifier", Obj::UA(a)) => Obj::N(Nullifier::new(bd(&p.nullifier)?, a.secret.expose_digest(), s.tcount)),
         ("leaf_clone", Obj::Leaf(l)) => Obj::Leaf(l.clone()),
-        ("merkle_new", Obj::Leaf(l)) => Obj::MP(ZkMerkleProofData::new(p.tree_root, s.siblings.clone(), s.positions.clone(), l, true)),
+        ("merkle_new", Obj::Leaf(l)) => Obj::MP(ZkMerkleProofData::new(p.tree_root, s.siblings.clone(), s.positions.clone(), l, !p.dummy)),
         ("merkle_from_unsorted", Obj::Leaf(l)) => {
-            Obj::MP(ZkMerkleProofData::from_unsorted(p.tree_root, s.siblings.clone(), p.leaf_hash, l, true).map_err(|x| x.to_string())?)
+            Obj::MP(ZkMerkleProofData::from_unsorted(p.tree_root, s.siblings.clone(), p.leaf_hash, l, !p.dummy).map_err(|x| x.to_string())?)
         }
         ("merkle_clone", Obj::MP(m)) => Obj::MP(m.clone()),
         ("merkle_take_leaf", Obj::MP(m)) => Obj::Leaf(m.leaf.clone()),
@@ -624,15 +627,23 @@ fn run_case(case: &Value, variant: usize, seed: u64) -> Value {
     let model_steps: Vec<Value> = case["steps"].as_array().cloned().unwrap_or_default();
     let mut rng = StdRng::seed_from_u64(seed ^ (index << 16) ^ ((variant as u64) << 48) ^ 0xC32);
     let depth = 4 + (index as usize + variant) % 3;
-    let p = gen_public(&mut rng);
-    let main = gen_sensitive(&mut rng, variant, depth);
+    let mut p = gen_public(&mut rng);
+    // variants >= 100: the same value classes on a statement that carries the dummy sentinel - what a Debug impl prints
+    // must not depend on the flag (the property quantifies over all private witnesses, padding ones included)
+    if variant >= 100 {
+        p.dummy = true;
+        p.block_hash = [0u8; 32];
+        p.out1 = 0;
+        p.out2 = 0;
+    }
+    let main = gen_sensitive(&mut rng, variant % 100, depth);
     let mut control = gen_sensitive(&mut rng, 0, depth);
     while control.positions == main.positions {
         control.positions = (0..depth).map(|_| rng.gen_range(0..4u8)).collect();
     }
     let rm = execute(&chain, &model_steps, &main, &p);
     let rc = execute(&chain, &model_steps, &control, &p);
-    let mut out = json!({"index": index, "variant": variant, "class": CLASSES[variant % CLASSES.len()], "chain": chain,
+    let mut out = json!({"index": index, "variant": variant, "class": format!("{}{}", CLASSES[(variant % 100) % CLASSES.len()], if variant >= 100 { " / dummy statement" } else { "" }), "chain": chain,
                          "executed": rm.types.len(), "error": rm.error, "control_error": rc.error});
     let needles = sensitive_needles(&main, &rm.derived);
     let n_needles: usize = needles.iter().map(|(_, n)| n.list.len()).sum();
